@@ -720,7 +720,36 @@ def c15(pid, tier, replay):
     with open(spath, "w") as f:
         json.dump(scs, f)
     t = scr.fresh("fanout") + ".ndjson"
-    run_cmd([h, "fanout", spath, t], timeout=1800)
+    fr = subprocess.run([h, "fanout", spath, t], stdout=subprocess.PIPE, stderr=subprocess.PIPE, text=True, timeout=1800)
+    if fr.returncode != 0:
+        # a panic in the fan-out's own goroutine (send on a closed channel) takes the harness down: that is the behaviour
+        # C15 forbids.  Same scenarios again, one at a time, each noted, to attribute it.
+        if not hidi_abort(fr.stderr):
+            raise Infra("verifh fanout failed: " + fr.stderr[-3000:])
+        open(t, "w").close()
+        rest = scs
+        for attempt in range(4):
+            with open(spath, "w") as f:
+                json.dump(rest, f)
+            part, cur = scr.fresh("fanout-part") + ".ndjson", scr.fresh("fanout-cur") + ".json"
+            fr = subprocess.run([h, "fanout", spath, part], stdout=subprocess.PIPE, stderr=subprocess.PIPE, text=True, timeout=3000,
+                                env=dict(os.environ, VERIFH_SERIAL="1", VERIFH_CUR=cur))
+            done = open(part).read() if os.path.exists(part) else ""
+            done = "".join(x + "\n" for x in done.splitlines() if x.endswith("}"))
+            with open(t, "a") as o:
+                o.write(done)
+            if fr.returncode == 0:
+                break
+            if not (hidi_abort(fr.stderr) and os.path.exists(cur)):
+                raise Infra("verifh fanout failed (serial rerun): " + fr.stderr[-3000:])
+            d = abort_line(cur, fr.stderr)
+            d["crash"] = d.pop("msg")
+            with open(t, "a") as o:
+                o.write(json.dumps(d) + "\n")
+            seen = {json.loads(x)["id"] for x in done.splitlines()} | {d["id"]}
+            rest = [s for s in rest if s["id"] not in seen]
+            if not rest or attempt == 3:
+                break
     r = vlib.validate_trace(scr, "FanOutHistTrace", t)
     out.add(t, r, sample_filter=lambda d: len(d.get("ops", [])) < 14)
     if not replay:
@@ -1175,7 +1204,10 @@ def lifecycle_batches(seed, tier):
     search = [{"cfg": cfg, "colors": LED_COLORS, "layout": layout, "nowait": True, "server": mode,
                "walks": [walk(rng.randrange(0, 6), rng.choice([0, 1]), midi=False, sleep_before_disc=ms) for ms in (0, 40, 300, 700)]}
               for mode in ("nocontroller", "other")]
-    return [[b] for b in waited + nowait + stress + search]
+    # MIDI input keeps arriving (buffered channel, as the fan-out provides) across the end of the event stream
+    flood = [{"cfg": cfg, "colors": LED_COLORS, "layout": layout, "nowait": True, "async_midi": True, "flood": True,
+              "walks": [walk(rng.randrange(2, 12), rng.choice([0, 2]), sleep_before_disc=rng.choice([0, 5, 300])) for _ in range(max(3, n // 2))]}]
+    return [[b] for b in waited + nowait + stress + search + flood]
 
 
 def c16(pid, tier, replay):
